@@ -14,6 +14,11 @@ MAPS = [['a'], ['a', 'b?'], ['a', 'q', 'b?'], ['m', 'g', 'a'], ['q?', 'm?', 'c']
 
 def make_skeleton(spec):
     codes = spec['map']
+    if 'composed' in spec:
+        lab, decls, texpr, expected = rt.composed(codes, 2)[spec['composed']]
+        call = 'export default defineComponent((props: %s) => () => null);' % texpr
+        src = rt.module_src('EXPECT', expected, decls, call, '')
+        return Skeleton('c16#%s|composed:%s|top' % (','.join(codes), lab), src, [], {'resolve_type': True}, tsx=True, meta={'family': 'c16/composed'})
     enc = [e for e in rt.encodings(codes) if e[0] == spec['enc']][0]
     name, before, texpr, after, expected = enc
     call = ('export default ' if spec.get('scope') != 'local' else '') + 'defineComponent((props: %s) => () => null);' % texpr
@@ -71,6 +76,19 @@ def jobs(tier):
             out.append({'map': mp, 'enc': e[0]})
             if e[0] in ('alias', 'interface', 'merged', 'extends', 'intersection', 'indexed', 'after-interface', 'partial', 'pick') and (tier != 'quick' or mp in (MAPS[1], MAPS[2])):
                 out.append({'map': mp, 'enc': e[0], 'scope': 'local'})
+    import random
+    rnd = random.Random(common.seed())
+    for mp in ([MAPS[1], MAPS[2], MAPS[3]] if tier == 'quick' else MAPS[1:]):
+        allc = rt.composed(mp, 2)
+        idx = list(range(len(allc)))
+        if tier == 'quick':
+            # every operator pair is covered by construction order; a seeded sample keeps the quick tier short
+            head = [i for i in idx if '&' in allc[i][0] and ('Partial' in allc[i][0] or 'Required' in allc[i][0])][:24]
+            rest = [i for i in idx if i not in head]
+            rnd.shuffle(rest)
+            idx = head + rest[:60]
+        for i in idx:
+            out.append({'map': mp, 'composed': i})
     return [{'module': MOD, 'spec': s, 'verbose': True} for s in out]
 
 
